@@ -196,16 +196,23 @@ def rule_H1(ctx):
 
 def _endian_chain(f):
     """Interpret the if/elif/else chain on ``endian`` → function char -> table name."""
+    # the variable holding the endianness character: a parameter called endian, or a local assigned from m.group('endian')
+    evars = {p for p in f.params() if p == 'endian'}
+    for n in own_walk(f.node):
+        if isinstance(n, ast.Assign) and len(n.targets) == 1 and isinstance(n.targets[0], ast.Name) and "group('endian')" in ast.unparse(n.value):
+            evars.add(n.targets[0].id)
     top = None
     for n in own_walk(f.node):
-        if isinstance(n, ast.If) and 'endian' in ast.unparse(n.test) and _tables_in(n):
+        if isinstance(n, ast.If) and any(isinstance(y, ast.Name) and y.id in evars for y in ast.walk(n.test)) and _tables_in(n):
             if top is None or n.lineno < top.lineno:
                 top = n
     if top is None:
         return None
 
     def test(t, ch):
-        if isinstance(t, ast.Compare) and len(t.ops) == 1 and isinstance(t.left, ast.Name) and t.left.id == 'endian' \
+        if isinstance(t, ast.UnaryOp) and isinstance(t.op, ast.Not):
+            return not test(t.operand, ch)
+        if isinstance(t, ast.Compare) and len(t.ops) == 1 and isinstance(t.left, ast.Name) and t.left.id in evars \
                 and isinstance(t.comparators[0], ast.Constant):
             v = t.comparators[0].value
             if isinstance(t.ops[0], ast.In):
@@ -222,7 +229,7 @@ def _endian_chain(f):
                 body = node.body
             else:
                 body = node.orelse
-                if len(body) == 1 and isinstance(body[0], ast.If) and 'endian' in ast.unparse(body[0].test):
+                if len(body) == 1 and isinstance(body[0], ast.If) and any(isinstance(y, ast.Name) and y.id in evars for y in ast.walk(body[0].test)):
                     node = body[0]
                     continue
             for s in body:
@@ -436,8 +443,7 @@ def rule_H3(ctx):
     # the test of the branch must be on sys.byteorder == 'little'
     t = m.byteorder_if.test
     bo = m.modglobals['__init__'].get('byteorder')
-    if not (isinstance(t, ast.Compare) and isinstance(t.ops[0], ast.Eq) and ast.unparse(t.comparators[0]) == "'little'"
-            and bo is not None and ast.unparse(bo) == 'sys.byteorder'):
+    if not (getattr(m, 'byteorder_test_ok', False) and (ast.unparse(t).count('sys.byteorder') or (bo is not None and ast.unparse(bo) == 'sys.byteorder'))):
         r.fail('__init__:byteorder', t, "branch must test sys.byteorder == 'little'", loc=f"bitstring/__init__.py:{m.byteorder_if.lineno}")
     else:
         r.ok(t)
